@@ -9,6 +9,11 @@ from .C02_formats import correspond_formats, replay_formats, search_formats
 
 GEN_UNITS = ["ShaCrypt", "B64", "FormatDigests"]
 LEAN_TARGETS = ["PasslibVerif.Props.C02", "PasslibVerif.Props.C02Formats"]
+#: code-level groups (a statement-by-statement model of passlib's own pure-Python checksum code, proved equal to the specification):
+#: (corr module, Props modules, suite name)
+CODE_GROUPS = [("c02_code_des", ["PasslibVerif.Props.C02CodeDes", "PasslibVerif.Props.C02CodeDesExamples", "PasslibVerif.Props.C02CodeDesExamples2", "PasslibVerif.Props.C02CodeDesExamples3"],
+                "code-model-des-family")]
+LEAN_TARGETS += [t for g in CODE_GROUPS for t in g[1]]
 ASSUMPTIONS = [
     "hashlib's MD5/SHA-256/SHA-512 are external C code: the theorems are about passlib's control structure over the FIPS 180-4 / RFC 1321 "
     "transcriptions (Spec.SHA256/SHA512/MD5); hashlib = transcription is checked on every run (suite digests) and is not a theorem",
@@ -146,7 +151,15 @@ def correspond(ctx):
         n = rng.choice([0, 1, len(src) - 1, len(src), len(src) + 1, 2 * len(src), 2 * len(src) + 1, rng.randrange(0, 300)])
         s_rep.add(f"shac repeat {hx(src)} {n}", lambda s=src, n=n: repeat_string(s, n).hex() or "", "passlib")
         s_rep.add(f"shac repeat {hx(src)} {n}", lambda s=src, n=n: lp_repeat(s, n).hex() or "", "libpass")
-    return merge(s_model, s_spec, s_dig, s_rep, o_os, *correspond_formats(ctx))
+    code = []
+    import importlib
+
+    for mod, _props, sname in CODE_GROUPS:
+        m = importlib.import_module("." + mod, __package__)
+        sc = Suite(ctx, sname, model_canon=getattr(m, "canon", None))
+        m.model_suite(ctx, sc)
+        code.append(sc)
+    return merge(s_model, s_spec, s_dig, s_rep, o_os, *code, *correspond_formats(ctx))
 
 
 # ------------------------------------------------------------------------------------------
